@@ -2355,19 +2355,53 @@ theorem nodup_stepX (g : Graph) (s : State) (op : XOp) (h : NoDup s) : NoDup (st
   cases op with
   | base op => exact nodup_step g s op h
   | poll p n sn text =>
-    show NoDup (if pollMatches s p n sn then (processMessage g 4 (clearOp s) p n .polled sn text).1 else clearOp s)
+    show NoDup (if pollMatches s p n sn then
+      (if isVacated text then (match (clearOp s).get? p n with
+          | some x => (clearOp s).put (vacateProxy x)
+          | none => clearOp s)
+        else (processMessage g 4 (clearOp s) p n .polled sn text).1) else clearOp s)
     split
-    · exact nodup_processMessage g 4 _ _ _ _ _ _ (show NoDup (clearOp s) from h)
+    · split
+      · split
+        · exact nodup_put _ _ (show NoDup (clearOp s) from h)
+        · exact h
+      · exact nodup_processMessage g 4 _ _ _ _ _ _ (show NoDup (clearOp s) from h)
     · exact h
 
 theorem mono_stepX (g : Graph) (s : State) (op : XOp) (hnd : NoDup s) : Mono s (stepX g s op) := by
   cases op with
   | base op => exact mono_step g s op hnd
   | poll p n sn text =>
-    show Mono s (if pollMatches s p n sn then (processMessage g 4 (clearOp s) p n .polled sn text).1 else clearOp s)
+    show Mono s (if pollMatches s p n sn then
+      (if isVacated text then (match (clearOp s).get? p n with
+          | some x => (clearOp s).put (vacateProxy x)
+          | none => clearOp s)
+        else (processMessage g 4 (clearOp s) p n .polled sn text).1) else clearOp s)
+    have hc : Mono s (clearOp s) := mono_of_eq s (clearOp s) rfl rfl
     split
-    · exact Mono.trans (mono_of_eq s (clearOp s) rfl rfl) (mono_processMessage g 4 _ _ _ _ _ _)
-    · exact mono_of_eq s (clearOp s) rfl rfl
+    · split
+      · split
+        · rename_i x hx
+          have hk := get?_some_key hx
+          refine Mono.trans hc (mono_put_fresh (clearOp s) x _ (by rw [hk.1, hk.2]; exact hx) ?_ ?_ ?_)
+          · unfold vacateProxy; split
+            · rfl
+            · split
+              · rfl
+              · simp [reset_pt]
+          · unfold vacateProxy; split
+            · rfl
+            · split
+              · rfl
+              · simp [reset_name]
+          · intro m hm; unfold vacateProxy; split
+            · exact hm
+            · split
+              · exact hm
+              · simpa [reset_done] using hm
+        · exact hc
+      · exact Mono.trans hc (mono_processMessage g 4 _ _ _ _ _ _)
+    · exact hc
 
 /-- every state of an extended run satisfies `P` when the start-up state does and every step preserves it -/
 theorem runX_inv (P : State → Prop) (g : Graph) (h0 : P (init g)) (hs : ∀ s op, P s → P (stepX g s op)) :
@@ -2391,6 +2425,29 @@ theorem runX_inv (P : State → Prop) (g : Graph) (h0 : P (init g)) (hs : ∀ s 
         · simp at h; subst h; exact hs _ _ hcur
       · exact hs _ _ hcur
   exact key ops [init g] (init g) (by intro s hm; simp at hm; subst hm; exact h0) h0
+
+/-- the same with the step hypothesis restricted to the ops of the list -/
+theorem runX_inv_mem (P : State → Prop) (g : Graph) (ops : List XOp) (h0 : P (init g))
+    (hs : ∀ s op, op ∈ ops → P s → P (stepX g s op)) : ∀ s ∈ runX g ops, P s := by
+  unfold runX
+  have key : ∀ (l : List XOp), (∀ op ∈ l, op ∈ ops) → ∀ (acc : List State) (cur : State),
+      (∀ s ∈ acc, P s) → P cur →
+      ∀ s ∈ (l.foldl (fun (a : List State × State) op =>
+          let s' := stepX g a.2 op; (a.1 ++ [s'], s')) (acc, cur)).1, P s := by
+    intro l
+    induction l with
+    | nil => intro _ acc cur hacc _ s hm; exact hacc s hm
+    | cons op l ih =>
+      intro hl acc cur hacc hcur
+      simp only [List.foldl_cons]
+      have hstep := hs cur op (hl op List.mem_cons_self) hcur
+      apply ih (fun o ho => hl o (List.mem_cons_of_mem _ ho))
+      · intro s hm
+        rcases List.mem_append.mp hm with h | h
+        · exact hacc s h
+        · simp at h; subst h; exact hstep
+      · exact hstep
+  exact key ops (fun _ h => h) [init g] (init g) (by intro s hm; simp at hm; subst hm; exact h0) h0
 
 theorem nodup_runX (g : Graph) (ops : List XOp) : ∀ s ∈ runX g ops, NoDup s :=
   runX_inv NoDup g (nodup_loadFromPoint g) (nodup_stepX g) ops
